@@ -20,6 +20,12 @@ Correspondence (model driver vs the real code on a fresh native build), per oper
   fpath  Catchment.compute_flowpathlengths / c_hydrodiy_gis.delineate_flowpathlengths_in_catchment
          end cell exact, length within 4 ulp (in practice bit-equal)
   river  hydrodiy.gis.grid.delineate_river                      cells, dx, dy exact; dist, x, y within 4 ulp
+Open outcomes: the property only asks for 'an error or a bounded result' on flow cycles. Where the MODEL's own predicates
+say so — `cycleThroughOutlet` (area; proved equivalent to a cycle through the outlet), `chainCyclic` (river), `flowPathCapped`
+(a flow-path row whose walk used all its iterations) — the driver flags the reply and only 'error, or a result within the
+bound, returned within the time limit' is compared: not which of the two, not the values (and after such a delineation
+in a history the flow-path step is open until the next delineation). Everything else is compared exactly. Error codes,
+classes and texts are not observables: rejected vs accepted only.
 Oracle (failing-input search on the real code only, independent of the model): a graph model in Python with
 its own ESRI table (1 = east, doubling clockwise): downstream = ESRI neighbour / -2 sink / -1 exit or invalid
 code; upstream row = inverse image of downstream, each cell once; area = outlet + every cell whose downstream
@@ -797,6 +803,43 @@ def gen_cases(ctx, cs):
 
 # =============================================================================================
 # canonical forms, model requests
+def split_flag(rep):
+    """'ok:[..] cyc' -> ('ok:[..]', 'cyc'); the flag is the model's own statement that the property leaves the outcome
+    open here (a flow cycle through the outlet / on the chain): error or bounded result, nothing more"""
+    for f in (" cyc", " acyc"):
+        if rep.endswith(f):
+            return rep[:-len(f)], f.strip()
+    return rep, None
+
+
+def open_outcome(r, nval, key="ok"):
+    """what is compared where the outcome is open: the call came back (it did: we have a reply) with an error or with
+    at most nval entries"""
+    if "err" in r or key not in r:
+        return "error-or-bounded"
+    return "error-or-bounded" if len(r[key]) <= max(nval, 0) else f"unbounded:{len(r[key])}>{nval}"
+
+
+def err_only(sx):
+    """error classes, codes and texts are not observables: rejected vs accepted only"""
+    return "err" if sx.startswith("err") else sx
+
+
+def fpath_rows_canon(rows, mrows, end_col, len_col, m_end, m_len, m_cap):
+    """rows of a flow-path table vs the model's; rows whose walk the model reports as capped (no outlet, no exit
+    within nval iterations: a cycle, or a list the property says nothing about) are only required to be finite"""
+    a, b = [], []
+    for x, m in zip(rows, mrows):
+        if m[m_cap] == "1":
+            fin = math.isfinite(x[len_col]) and x[len_col] >= 0
+            a.append("capped:" + ("bounded" if fin else repr(x[len_col])))
+            b.append("capped:bounded")
+        else:
+            a.append(f"{int(x[end_col])},{C.f2h(x[len_col])}")
+            b.append(f"{m[m_end]},{canon_float(x[len_col], C.h2f(m[m_len]))}")
+    return ";".join(a), ";".join(b)
+
+
 def canon_float(impl, model, ulps=4):
     """impl's hex when the two doubles are within `ulps`, else the model's"""
     return C.f2h(impl) if C.ulp_diff(impl, model) <= ulps else C.f2h(model)
@@ -883,37 +926,36 @@ def process_block(ctx, state, jobs, tags):
                 continue
             if kind == "down":
                 oracle_down(ctx, g, op, r, case, tag)
-                impl = "ok:" + C.ilist(r["ok"]) if "ok" in r else "err:" + kind_of(r)
+                impl = "ok:" + C.ilist(r["ok"]) if "ok" in r else "err"
                 reqs.append(f"down {gtok(job)} {C.ilist(op[2])}")
                 meta.append(("str", case, impl))
             elif kind == "up":
                 oracle_up(ctx, g, op, r, case, tag)
-                impl = "ok:" + ";".join(C.ilist(sorted(row)) for row in r["ok"]) if "ok" in r else "err:" + kind_of(r)
+                impl = "ok:" + ";".join(C.ilist(sorted(row)) for row in r["ok"]) if "ok" in r else "err"
                 reqs.append(f"up {gtok(job)} {C.ilist(op[2])}")
                 meta.append(("up", case, impl))
             elif kind == "area":
                 outlet, inlets, nval = op[2], op[3] or [], op[4]
                 nv = 1000000 if nval is None else nval
                 oracle_area(ctx, g, op, r, case, tag, nv)
-                impl = "ok:" + C.ilist(sorted(r["ok"])) if "ok" in r else "err:" + kind_of(r)
+                impl = "ok:" + C.ilist(sorted(r["ok"])) if "ok" in r else "err"
                 reqs.append(f"area {gtok(job)} {outlet} {C.ilist(inlets)} {nv}")
-                meta.append(("area", case, impl))
+                meta.append(("area", case, (impl, r, nv)))
                 if "filled" in r:
                     reqs.append(f"fillmask {nrows} {ncols} {C.ilist(r['ok'])}")
                     meta.append(("fillmask", case, r))
+                cyc_ = g.area(outlet, inlets)[1] if valid(n, outlet) and all(valid(n, c) for c in inlets) else True
                 if "fpath_err" in r:
                     ctx.count(("fpath", gtok(job), str(op)), False, "fpath/error")
-                    exp_, cyc_ = g.area(outlet, inlets) if valid(n, outlet) else ([], True)
-                    if not cyc_:
-                        ctx.finding("fpath/error_on_area", "compute_flowpathlengths raises on a delineated area",
-                                    {**case, "impl": r["fpath_err"]})
-                    else:
-                        ctx.disagree("C06 fpath: compute_flowpathlengths raised, the model returns a table",
-                                     {"request": case, "impl": r["fpath_err"]})
+                    if not cyc_ and all(expected_path(g, outlet, c, len(r["ok"]) - 1)[0] != "cap" for c in r["ok"]):
+                        ctx.finding("fpath/error_on_area", "compute_flowpathlengths raises on a delineated area none of whose "
+                                    "chains runs into a cycle", {**case, "impl": r["fpath_err"]})
+                    reqs.append(f"fpath {gtok(job)} {outlet} {C.ilist(r['ok'])}")
+                    meta.append(("fpath_err", case, r["fpath_err"]))
                 if "fpath" in r:
                     rows = r["fpath"]
                     cells = [int(x[0]) for x in rows]
-                    oracle_fpath(ctx, g, outlet, cells, rows, case, tag + "/fp=py", natural=True)
+                    oracle_fpath(ctx, g, outlet, cells, rows, case, tag + "/fp=py", natural=not cyc_)
                     if cells != r["ok"]:
                         ctx.finding("fpath/start_column", "flowpathlengths does not list the cells of idxcells_area in order", case)
                     reqs.append(f"fpath {gtok(job)} {outlet} {C.ilist(cells)}")
@@ -926,7 +968,8 @@ def process_block(ctx, state, jobs, tags):
                     meta.append(("fpath", case, r["ok"]))
                 else:
                     ctx.count(("fpath", gtok(job), str(op)), False, "fpath/error")
-                    ctx.disagree("C06 fpath: the kernel returned an error code, the model has none", {"request": case, "impl": r})
+                    reqs.append(f"fpath {gtok(job)} {outlet} {C.ilist(cells)}")
+                    meta.append(("fpath_err", case, r))
             elif kind == "hist":
                 mreq, mmeta = history_steps(ctx, etab, nrows, ncols, fd, op, r, case, tag)
                 reqs.append(f"hist {gtok(job)} {';'.join(mreq)}")
@@ -936,7 +979,7 @@ def process_block(ctx, state, jobs, tags):
                 nv = 1000000 if nval is None else nval
                 oracle_river(ctx, g, op, r, case, tag, nv)
                 reqs.append(f"river {gtok(job)} {C.f2h(xll)} {C.f2h(yll)} {C.f2h(csz)} {start} {nv}")
-                meta.append(("river", case, r))
+                meta.append(("river", case, (r, nv)))
 
     replies = ctx.lean.ask(reqs)
     # second phase for hole filling: scipy fills the mask the model built
@@ -944,19 +987,23 @@ def process_block(ctx, state, jobs, tags):
     import numpy as np
     reqs2, meta2 = [], []
     for req, (what, case, impl), rep in zip(reqs, meta, replies):
-        if what in ("str", "area"):
-            if rep.startswith("err:"):
-                rep = "err:err" if generic(impl) else "err:" + MODEL_ERR.get(rep[4:], rep[4:])
-            elif what == "area":
-                rep = "ok:" + C.ilist(sorted(int(t) for t in C.parse_list(rep[3:])))
-            ctx.compare("C06 " + req.split(" ")[0], case, impl, rep)
+        if what == "str":
+            ctx.compare("C06 " + req.split(" ")[0], case, impl, err_only(rep))
+        elif what == "area":
+            istr, r, nv = impl
+            rep, flag = split_flag(rep)
+            if flag == "cyc":
+                ctx.compare("C06 area (cycle through the outlet: error or bounded result)", case, open_outcome(r, nv),
+                            "error-or-bounded")
+            else:
+                if rep.startswith("ok:"):
+                    rep = "ok:" + C.ilist(sorted(int(t) for t in C.parse_list(rep[3:])))
+                ctx.compare("C06 area", case, istr, err_only(rep))
         elif what == "up":
             if rep.startswith("ok:"):
                 rows = rep[3:].strip("[]").split(";") if rep != "ok:[]" else []
                 rep = "ok:" + ";".join(C.ilist(sorted(int(t) for t in row.split(","))) for row in rows)
-            elif generic(impl):
-                rep = "err:err"
-            ctx.compare("C06 up", case, impl, rep)
+            ctx.compare("C06 up", case, impl, err_only(rep))
         elif what == "fillmask":
             r = impl
             if rep == "none":
@@ -972,37 +1019,65 @@ def process_block(ctx, state, jobs, tags):
         elif what == "fpath":
             rows = impl
             mrows = [t.split(",") for t in rep.strip("[]").split(";")] if rep != "[]" else []
-            a = ";".join(f"{int(x[1])},{C.f2h(x[2])}" for x in rows)
-            b = ";".join(f"{m[0]},{canon_float(x[2], C.h2f(m[1]))}" for x, m in zip(rows, mrows)) if len(rows) == len(mrows) else rep
+            if len(rows) == len(mrows):
+                a, b = fpath_rows_canon(rows, mrows, 1, 2, 0, 1, 4)
+            else:
+                a, b = f"{len(rows)} rows", f"{len(mrows)} rows"
             ctx.compare("C06 fpath", case, a, b)
+        elif what == "fpath_err":
+            # an error instead of a table: one of the two open outcomes when some walk is capped (a cycle), else a mismatch
+            mrows = [t.split(",") for t in rep.strip("[]").split(";")] if rep != "[]" else []
+            ctx.compare("C06 fpath (error)", case, "err", "err" if any(m[4] == "1" for m in mrows) else "table")
         elif what == "hist":
             parts = rep.split("|")
             if len(parts) != len(impl):
                 ctx.compare("C06 hist", case, f"{len(impl)} replies", rep[:300])
                 continue
-            for (i, skind, istr, rows), mrep in zip(impl, parts):
+            open_state = False
+            for (i, skind, istr, rows, raw, nv), mrep in zip(impl, parts):
                 c2 = {**case, "step": i}
+                mrep, flag = split_flag(mrep)
+                istr = err_only(istr)
+                if skind == "D":
+                    # after a delineation whose outcome the property leaves open (cycle through the outlet) the object
+                    # may hold an area or none: what compute_flowpathlengths then does is open too, until the next D
+                    open_state = flag == "cyc"
+                if skind == "F" and open_state:
+                    continue
+                if flag == "cyc" and skind in ("D", "R"):
+                    ctx.compare("C06 hist/" + skind + " (flow cycle: error or bounded result)", c2, open_outcome(raw, nv),
+                                "error-or-bounded")
+                    continue
                 if mrep.startswith("err:"):
-                    mrep = "err:err" if istr == "err:err" else "err:" + MODEL_ERR.get(mrep[4:], mrep[4:])
+                    mrep = "err"
                 elif skind in ("D",):
                     mrep = "ok:" + C.ilist(sorted(int(t) for t in C.parse_list(mrep[3:])))
                 elif skind == "U":
                     rr = mrep[3:].strip("[]").split(";") if mrep != "ok:[]" else []
                     mrep = "ok:" + ";".join(C.ilist(sorted(int(t) for t in row.split(","))) for row in rr)
-                elif skind in ("F", "R") and rows is not None:
+                elif skind == "F":
                     mrows = [t.split(",") for t in mrep[3:].strip("[]").split(";")] if mrep != "ok:[]" else []
-                    if skind == "F":
-                        mrows.sort(key=lambda m: int(m[0]))
-                        if len(mrows) == len(rows):
-                            mrep = "ok:" + ";".join(f"{m[0]},{m[1]},{canon_float(x[2], C.h2f(m[2]))}" for x, m in zip(rows, mrows))
-                    elif len(mrows) == len(rows):
+                    mrows.sort(key=lambda m: int(m[0]))
+                    if rows is None:
+                        # the real object raised: open when some walk is capped
+                        if any(m[3] == "1" for m in mrows):
+                            mrep = "err"
+                    elif len(mrows) == len(rows) and [int(x[0]) for x in rows] == [int(m[0]) for m in mrows]:
+                        istr, mrep = fpath_rows_canon(rows, mrows, 1, 2, 1, 2, 3)
+                elif skind == "R" and rows is not None:
+                    mrows = [t.split(",") for t in mrep[3:].strip("[]").split(";")] if mrep != "ok:[]" else []
+                    if len(mrows) == len(rows):
                         mrep = "ok:" + ";".join(f"{m[0]},{canon_float(x[1], C.h2f(m[1]))},{m[2]},{m[3]}" for x, m in zip(rows, mrows))
                 ctx.compare("C06 hist/" + skind, c2, istr, mrep)
         elif what == "river":
-            r = impl
+            r, nv = impl
+            rep, flag = split_flag(rep)
+            if flag == "cyc":
+                ctx.compare("C06 river (chain runs into a cycle: error or bounded result)", case, open_outcome(r, nv),
+                            "error-or-bounded")
+                continue
             if "err" in r:
-                ik = "err:" + etab.get(r["err"], "err")
-                ctx.compare("C06 river", case, ik, "err:err" if ik == "err:err" and rep.startswith("err:") else rep)
+                ctx.compare("C06 river", case, "err", err_only(rep))
                 continue
             rows = r["ok"]
             if not rep.startswith("ok:"):
@@ -1062,9 +1137,9 @@ def history_steps(ctx, etab, nrows, ncols, fd0, op, r, case, tag):
             area = rr.get("ok")
             if "filled" in rr:
                 oracle_filled(ctx, c2, rr)
-            istr = "ok:" + C.ilist(sorted(rr["ok"])) if "ok" in rr else "err:" + etab.get(rr.get("err"), "err")
+            istr = "ok:" + C.ilist(sorted(rr["ok"])) if "ok" in rr else "err"
             mreq.append(f"D:{o}:{C.ilist(inl)}:{nval}")
-            mmeta.append((i, "D", istr, None))
+            mmeta.append((i, "D", istr, None, rr, nval))
         elif k == "F":
             if "ok" in rr:
                 rows = sorted(rr["ok"], key=lambda x: x[0])
@@ -1082,14 +1157,15 @@ def history_steps(ctx, etab, nrows, ncols, fd0, op, r, case, tag):
                     ctx.finding("fpath/table_without_area", "compute_flowpathlengths answers although the last delineation "
                                 "failed (or none was made)", c2)
                 istr = "ok:" + ";".join(f"{int(x[0])},{int(x[1])},{C.f2h(x[2])}" for x in rows)
-                mmeta.append((i, "F", istr, rows))
+                mmeta.append((i, "F", istr, rows, rr, 0))
             else:
                 ctx.count(("hist", str(c2)), False, "hist/F/error")
                 if area_ok and "err" in rr:
                     exp_, cyc_ = g.area(outlet, []) if valid(n, outlet) else ([], True)
-                    if not cyc_:
-                        ctx.finding("fpath/error_on_area", "compute_flowpathlengths raises on a delineated area", {**c2, "impl": rr})
-                mmeta.append((i, "F", "err:err", None))
+                    if not cyc_ and area and all(expected_path(g, outlet, c, len(area) - 1)[0] != "cap" for c in area):
+                        ctx.finding("fpath/error_on_area", "compute_flowpathlengths raises on a delineated area none of whose "
+                                    "chains runs into a cycle", {**c2, "impl": rr})
+                mmeta.append((i, "F", "err", None, rr, 0))
             mreq.append("F")
         elif k in ("S", "G", "O", "K", "P", "E"):
             if "err" in rr:
@@ -1098,31 +1174,31 @@ def history_steps(ctx, etab, nrows, ncols, fd0, op, r, case, tag):
                 cur[st[1]] = st[2]
                 g = G(nrows, ncols, cur)
                 mreq.append(f"S:{st[1]}:{st[2]}")
-                mmeta.append((i, "S", "-", None))
+                mmeta.append((i, "S", "-", None, rr, 0))
             elif k == "G":
                 cur = list(st[1])
                 g = G(nrows, ncols, cur)
                 mreq.append(f"G:{C.ilist(cur)}")
-                mmeta.append((i, "G", "-", None))
+                mmeta.append((i, "G", "-", None, rr, 0))
         elif k == "W":
             oracle_down(ctx, g, ["down", "py", st[1]], rr, c2, f"hist.{name}")
-            istr = "ok:" + C.ilist(rr["ok"]) if "ok" in rr else "err:" + etab.get(rr.get("err"), "err")
+            istr = "ok:" + C.ilist(rr["ok"]) if "ok" in rr else "err"
             mreq.append(f"W:{C.ilist(st[1])}")
-            mmeta.append((i, "W", istr, None))
+            mmeta.append((i, "W", istr, None, rr, 0))
         elif k == "U":
             oracle_up(ctx, g, ["up", "py", st[1]], rr, c2, f"hist.{name}")
-            istr = "ok:" + ";".join(C.ilist(sorted(row)) for row in rr["ok"]) if "ok" in rr else "err:" + etab.get(rr.get("err"), "err")
+            istr = "ok:" + ";".join(C.ilist(sorted(row)) for row in rr["ok"]) if "ok" in rr else "err"
             mreq.append(f"U:{C.ilist(st[1])}")
-            mmeta.append((i, "U", istr, None))
+            mmeta.append((i, "U", istr, None, rr, 0))
         elif k == "R":
             oracle_river(ctx, g, ["river", "py", st[1], st[2], 0.0, 0.0, 1.0], rr, c2, f"hist.{name}", st[2])
             if "ok" in rr:
                 istr = "ok:" + ";".join(f"{int(x[0])},{C.f2h(x[1])},{int(x[2])},{int(x[3])}" for x in rr["ok"])
-                mmeta.append((i, "R", istr, rr["ok"]))
+                mmeta.append((i, "R", istr, rr["ok"], rr, st[2]))
             else:
-                mmeta.append((i, "R", "err:" + etab.get(rr.get("err"), "err"), None))
+                mmeta.append((i, "R", "err", None, rr, st[2]))
             mreq.append(f"R:{st[1]}:{st[2]}")
-    return mreq or ["F"], mmeta if mreq else [(0, "F", "err:err", None)]
+    return mreq or ["F"], mmeta if mreq else [(0, "F", "err", None, {"err": -1}, 0)]
 
 
 # =============================================================================================
@@ -1291,12 +1367,11 @@ def oracle_river(ctx, g, op, r, case, tag, nval):
               f"river/{tag.split('/')[0]}/" + ("cyclic" if cyclic else "capped" if len(chain) == nval and c >= 0 else "ended"))
     got = [int(x[0]) for x in rows]
     if cyclic:
-        # bounded result: any prefix of the true chain (at most nval cells) — checked row by row below
-        if len(got) > nval or got != chain[:len(got)]:
-            ctx.finding("river/not_downstream_chain", "the river cells on a chain that runs into a cycle are not a prefix "
-                        "(at most nval cells) of the downstream chain", {**case, "got": got[:50], "expected": chain[:50]})
-            return
-        chain = chain[:len(got)]
+        # the property leaves the outcome open: an error (above) or a bounded result — nothing about its values
+        if len(got) > nval:
+            ctx.finding("river/unbounded_on_cycle", "the river on a chain that runs into a flow cycle has more than nval rows",
+                        {**case, "rows": len(got)})
+        return
     elif got != chain:
         ctx.finding("river/not_downstream_chain", "the river cells are not the downstream chain from the start cell "
                     "(up to nval cells, ending at the first sink / exit)", {**case, "got": got[:50], "expected": chain[:50]})
